@@ -13,8 +13,8 @@
    TLC checks  AcceptSound == accept => GossipOK  and totality on every edge.
 
    Abstraction of values (the harness concretises them, harness/valkit):
-     slots   : an integer k is the real slot Base+k (Base a multiple of 32, 4 and 7); ZERO = real 0, H63 = 2^63,
-               HMAX = 2^64-1 (codes keep the real order).  height = slot.
+     slots   : an integer k is the real slot Base+k (Base a multiple of 32, 4 and 7); ZERO = real 0, H62 = 2^62+Base,
+               H63 = 2^63, HMAX = 2^64-1 (codes keep the real order).  height = slot.
      rounds  : an integer is itself; RBIG = 2^32, R63 = 2^63, RMAX = 2^64-1.
      time    : t = [s |-> current slot, o |-> whole seconds into the slot]; the real clock is set to o + 0.5 s.
      signers : 1..N committee members, 0 the zero id, ids > N non-members.
@@ -29,6 +29,8 @@ CONSTANTS N,             \* committee size (4 or 7)
           MaxAccepts,    \* accepted messages per behaviour
           ForkEpoch,     \* signed envelopes are active iff Epoch(t.s) > ForkEpoch
           PartialWindow, \* BOOLEAN, see above
+          OverflowGuard, \* BOOLEAN: FALSE = pinned code (slot start times are computed in wrapping uint64 seconds, so slot
+                         \* 2^62+s aliases slot s for every clock check), TRUE = such slots are refused as early
           Weaken,        \* "none" or the name of one removed guard
           KnownGaps      \* rule names excluded from AcceptSound (recorded genuine defects)
 
@@ -41,6 +43,7 @@ vars == <<sig, hist, now, done, act>>
 view == <<sig, hist, now, done>>
 
 ZERO == -1000
+H62  == 900          \* real slot 2^62 + Base: (2^62+s)*12 = 3*2^64 + 12*s, the same start time as slot Base (code 0)
 H63  == 1000
 HMAX == 1001
 RBIG == 1000
@@ -53,8 +56,8 @@ Members == 1..N
 G(g) == Weaken # g        \* guard g is in force
 
 SignerSet(m) == {m.sg[k] : k \in 1..Len(m.sg)}
-Epoch(k) == IF k = ZERO THEN -100000 ELSE IF k >= 1000 THEN k * 1000 ELSE k \div 32
-HMod(h) == IF h = ZERO THEN 0 ELSE h % N
+Epoch(k) == IF k = ZERO THEN -100000 ELSE IF k >= 900 THEN k * 1000 ELSE k \div 32
+HMod(h) == IF h = ZERO THEN 0 ELSE IF h = H62 THEN (IF N = 4 THEN 0 ELSE 4) ELSE h % N   \* 2^62 mod 7 = 4
 Leader(h, r) == ((HMod(h) + r - 1) % N) + 1
 Signed(t) == Epoch(t.s) > ForkEpoch
 TLeq(a, b) == a.s < b.s \/ (a.s = b.s /\ a.o <= b.o)
@@ -73,13 +76,16 @@ PTypeOK(pt, role) ==
 ----------------------------------------------------------------------------
 (* clock arithmetic of the code (network.go, validateSlotTime, currentEstimatedRound), in half seconds *)
 Special(k) == k = ZERO \/ k >= 1000
-Early(h, t) == ~Special(h) /\ h > t.s            \* slotEnd(current) - 50ms before slotStart(h); 2^63 and 2^64-1 wrap to genesis
-Late(h, role, t) == TTL(role) >= 0 /\ (Special(h) \/ t.s > h + TTL(role))
-EstRound(h, t) ==        \* estimated round of a message for slot h received at t (h <= t.s)
+Alias(k) == IF k = H62 THEN 0 ELSE k             \* the slot whose start time the code computes for k
+Early(h, t) == IF h = H62 /\ OverflowGuard THEN TRUE
+               ELSE ~Special(h) /\ Alias(h) > t.s   \* slotEnd(current) - 50ms before slotStart(h); 2^63 and 2^64-1 wrap to genesis
+Late(h, role, t) == TTL(role) >= 0 /\ (Special(h) \/ t.s > Alias(h) + TTL(role))
+EstRound(h, t) ==        \* estimated round of a message for slot h received at t
     IF Special(h) THEN 100000
-    ELSE LET e2 == 2 * ((t.s - h) * 12 + t.o) + 1      \* elapsed half seconds since slot start
+    ELSE LET e2 == 2 * ((t.s - Alias(h)) * 12 + t.o) + 1      \* elapsed half seconds since slot start
              q  == 1 + (e2 \div 4)                      \* QuickTimeout = 2 s
-         IN IF q <= 8 THEN q ELSE 9 + ((e2 - 32) \div 240)   \* SlowTimeout = 2 min after 8 quick rounds
+         IN IF e2 <= 0 THEN 1                                \* not after the slot start: FirstRound
+            ELSE IF q <= 8 THEN q ELSE 9 + ((e2 - 32) \div 240)   \* SlowTimeout = 2 min after 8 quick rounds
 
 ----------------------------------------------------------------------------
 ZeroCounts == [pre |-> 0, prop |-> 0, prep |-> 0, comm |-> 0, dec |-> 0, rc |-> 0, post |-> 0]
@@ -281,6 +287,13 @@ Elapsed2(h, t) == 2 * ((t.s - h) * 12 + t.o) + 1                    \* half seco
 Deadline2(r) == IF r <= 8 THEN 4 * r ELSE 32 + 240 * (r - 8)         \* end of round r of an instance started at slot start
 RoundAt(h, t) == CHOOSE r \in 1..40 : Deadline2(r - 1) <= Elapsed2(h, t) /\ Elapsed2(h, t) < Deadline2(r)
 
+(* round-robin leader over the real numbers behind the codes (2^62, 2^63, 2^64-1, 2^32 modulo 4 and 7) *)
+HModD(h) == CASE h = ZERO -> 0 [] h = H62 -> (IF N = 4 THEN 0 ELSE 4) [] h = H63 -> (IF N = 4 THEN 0 ELSE 1)
+              [] h = HMAX -> (IF N = 4 THEN 3 ELSE 1) [] OTHER -> h % N
+RModD(r) == CASE r = RBIG -> (IF N = 4 THEN 0 ELSE 4) [] r = R63 -> (IF N = 4 THEN 0 ELSE 1)
+              [] r = RMAX -> (IF N = 4 THEN 3 ELSE 1) [] OTHER -> r % N
+LeaderD(h, r) == ((HModD(h) + RModD(r) + N - 1) % N) + 1
+
 SlotWindowOK(m, t) == m.h <= t.s /\ (TTL(m.role) >= 0 => t.s <= m.h + TTL(m.role))
 
 LimitBreak(m, H) ==
@@ -307,9 +320,10 @@ GossipBreak(m, t, H) ==
       [] \E j, k \in 1..Len(m.sg) : j < k /\ m.sg[j] > m.sg[k] -> "unsorted-signers"
       [] Len(m.sg) > 1 /\ ~(m.st = "cons" /\ m.mt = 2) -> "multi-signer-non-commit"
       [] Len(m.sg) > 1 /\ Len(m.sg) < Quorum -> "decided-subquorum"
-      [] m.st = "cons" /\ m.mt = 0 /\ (m.r < 1 \/ m.r >= RBIG \/ Special(m.h) \/ m.sg[1] # Leader(m.h, m.r)) -> "non-leader-proposal"
+      [] m.st = "cons" /\ m.mt = 0 /\ (m.r < 1 \/ m.sg[1] # LeaderD(m.h, m.r)) -> "non-leader-proposal"
       [] m.st = "cons" /\ HasFullData(m) /\ m.fd # m.root -> "root-mismatch"
       [] m.st = "psig" /\ ~SlotWindowOK(m, t) -> "partial-sig-outside-slot-window"
+      [] m.st = "cons" /\ m.h \in {H62, H63, HMAX} -> "slot-time-overflow"
       [] m.st = "cons" /\ m.h > t.s -> "early-slot"
       [] m.st = "cons" /\ ~SlotWindowOK(m, t) -> "late-slot"
       [] m.st = "cons" /\ (m.r < 1 \/ m.r > MaxRound(m.role)) -> "round-too-high"
@@ -347,7 +361,7 @@ Validate(m, t) ==
        IN /\ Apply(m, t, vd.v = "accept" /\ room)
           /\ done' = (vd.v = "accept" /\ ~room)
           /\ act' = [name |-> "Validate", m |-> m, t |-> t, v |-> vd.v, rule |-> vd.rule,
-                     g |-> GossipBreak(m, t, hist)]
+                     g |-> IF vd.v = "accept" THEN GossipBreak(m, t, hist) ELSE "-"]
 
 Next == \E t \in Times, m \in Alphabet : Validate(m, t)
 Spec == Init /\ [][Next]_vars
